@@ -7,6 +7,8 @@ import warnings
 
 import numpy as np
 
+from hyverif.core import digest, same_result
+
 ID = "C08"
 SHARDS = {"quick": 8, "thorough": 16}
 BUDGET = {"quick": 300, "thorough": 1800}
@@ -187,6 +189,22 @@ def run_agg_case(ctx, case):
                                                     "sum_in": tot})
     if len(gr) >= 2 or nanany:
         ctx.nontrivial("agg", idx, v, op, maxnan)
+    # the same numbers in another memory layout / container / index width
+    prng = np.random.default_rng(digest(idx, v, op) % 2 ** 32)
+    ctx.presentations("aggregate", lambda i_, v_: du.aggregate(i_, v_, operator=op,
+                                                               maxnan=maxnan),
+                      [idx.astype(np.int32), v], out, case, prng, n=1)
+    if prng.random() < 0.3:
+        ctx.tag("index:int64")
+        ctx.api("aggregate")
+        try:
+            o64 = du.aggregate(idx.astype(np.int64), v.copy(), operator=op, maxnan=maxnan)
+            ctx.check("agg.int64-index", same_result(o64, out),
+                      "aggregate|result-depends-on-index-width", case,
+                      lambda: {"int64": np.asarray(o64)[:8], "int32": out[:8]})
+        except Exception as e:
+            ctx.check("agg.int64-index", False, "aggregate|raises-on-int64-index", case,
+                      {"exc": repr(e)})
 
 
 def run_flat_case(ctx, case):
@@ -231,6 +249,9 @@ def run_flat_case(ctx, case):
                       "flathomogen|group-total", case,
                       lambda: {"inputs": g, "outputs": o})
     ctx.nontrivial("flat", idx, v, maxnan)
+    prng = np.random.default_rng(digest(idx, v, maxnan) % 2 ** 32)
+    ctx.presentations("flathomogen", lambda i_, v_: du.flathomogen(i_, v_, maxnan),
+                      [idx.astype(np.int32), v], out, case, prng, n=1)
     # goue: NSE of the series against its homogenised version
     if not np.isnan(v).any() and len(v) >= 3 and np.std(v) > 1e-3 * (np.abs(v).max()):
         from hydrodiy.data import signatures
